@@ -7,6 +7,7 @@ import (
 	"path/filepath"
 	"runtime"
 	"sort"
+	"strings"
 	"sync"
 
 	"verif/harness/hx"
@@ -171,4 +172,44 @@ func RunEngine(o *hx.Opts, res *hx.Result, spec EngineSpec) {
 	}
 	close(ch)
 	wg.Wait()
+}
+
+// L0Extra compares every level-0 file litestream wrote with the page-level sync
+// model (driver_c01): an incremental file must hold exactly the latest version
+// of each page of its WAL segment trimmed to the final size; a snapshot file
+// exactly the pages 1..commit without the lock page.
+func L0Extra(o *hx.Opts, id string) func(h History, st RunStats, res *hx.Result, mu *sync.Mutex) {
+	var drv *hx.Driver
+	var once sync.Once
+	return func(h History, st RunStats, res *hx.Result, mu *sync.Mutex) {
+		once.Do(func() {
+			d, err := hx.StartDriver(o.Driver)
+			if err != nil {
+				hx.Fatal(err)
+			}
+			drv = d
+		})
+		mu.Lock()
+		defer mu.Unlock()
+		res.Distribution["l0-files-skipped(wal-range-overwritten)"] += st.L0Skipped
+		for _, ob := range st.L0Obs {
+			model, err := drv.Ask(ob.Line)
+			if err != nil {
+				hx.Fatal(err)
+			}
+			res.Count("l0-file:" + ob.Kind)
+			m := model
+			if ob.Kind == "incr" {
+				if strings.Contains(model, "segok=0") {
+					res.Count("l0-file:segment-outside-SegOK(environment assumption)")
+				}
+				m = strings.Replace(strings.Replace(model, " segok=1", "", 1), " segok=0", "", 1)
+			}
+			if hx.Differs(ob.Real, m) && model != "-" {
+				res.DisagreementsChecked++
+				res.AddFinding("disagreement", id+"/l0-file-model-vs-impl", fmt.Sprintf("level-0 file differs from the sync model: real %.200q model %.200q", ob.Real, m),
+					map[string]any{"history": h, "text": h.String(), "line": ob.Line, "real": ob.Real})
+			}
+		}
+	}
 }
